@@ -59,6 +59,8 @@ enum Out {
     Filled,
     Err,
     Alien,
+    /// the venue rejects with `AssetInvalid` naming an asset outside the manager's configuration (key echoed)
+    ErrAsset,
 }
 
 #[derive(Debug, Clone, Serialize, Deserialize, PartialEq)]
@@ -155,7 +157,10 @@ fn run(case: &Case) -> Result<Outcome, V> {
     let own: Vec<InstrumentIndex> = ins.instruments().iter().filter(|i| i.value.exchange.value == ex_id).map(|i| i.key).collect();
     let map = generate_execution_instrument_map(&ins, ex_id).map_err(|e| ("execution_map_generation_failed", e.to_string()))?;
     let indexer = AccountEventIndexer::new(Arc::new(map));
-    let t = Duration::from_millis(case.timeout_ms);
+    // timeout_ms == u64::MAX: the manager is configured never to give up on the client (Duration::MAX)
+    let unbounded = case.timeout_ms == u64::MAX;
+    let t = if unbounded { Duration::MAX } else { Duration::from_millis(case.timeout_ms) };
+    let t_wait = if unbounded { Duration::ZERO } else { t };
 
     let cid_of = |n: usize| format!("{}{n}", if case.reqs[n].open { "o" } else { "c" });
     let mut script: HashMap<String, std::collections::VecDeque<(Option<u64>, Out)>> = HashMap::new();
@@ -174,6 +179,7 @@ fn run(case: &Case) -> Result<Outcome, V> {
                 Out::Filled => ReplyKind::OkFullyFilled,
                 Out::Err => ReplyKind::Err,
                 Out::Alien => ReplyKind::OkUnknownInstrument,
+                Out::ErrAsset => ReplyKind::ErrUnconfiguredAsset,
             },
         ),
         _ => Reply::Never,
@@ -220,7 +226,7 @@ fn run(case: &Case) -> Result<Outcome, V> {
         // the property is about a RUNNING manager: wait until every request must have been answered
         // (timeout + slack), then much longer to catch late duplicates, and only then shut down
         let max_delay = reqs.iter().filter_map(|r| r.delay_ms).max().unwrap_or(0);
-        let quiet = t + Duration::from_millis(max_delay) + t * 10 + Duration::from_millis(if multi { 300 } else { 1000 });
+        let quiet = t_wait + Duration::from_millis(max_delay) + t_wait * 10 + Duration::from_millis(if multi { 300 } else { 1000 });
         tokio::time::sleep(quiet).await;
         // second round: the same (kind, client order id) again
         let r2_start_ms = start.elapsed().as_millis();
@@ -237,7 +243,7 @@ fn run(case: &Case) -> Result<Outcome, V> {
                 tokio::time::sleep(Duration::from_millis(1)).await;
             }
             let max_delay2 = reissue.iter().filter_map(|r| r.delay_ms).max().unwrap_or(0);
-            tokio::time::sleep(t + Duration::from_millis(max_delay2) + t * 10 + Duration::from_millis(if multi { 300 } else { 1000 })).await;
+            tokio::time::sleep(t_wait + Duration::from_millis(max_delay2) + t_wait * 10 + Duration::from_millis(if multi { 300 } else { 1000 })).await;
         }
         let _ = req_tx.tx.send(ExecutionRequest::Shutdown);
         let _ = tokio::time::timeout(Duration::from_secs(30), handle).await;
@@ -319,8 +325,11 @@ fn run(case: &Case) -> Result<Outcome, V> {
             (Out::Ok, _) | (Out::Alien, _) => "ok",
             (Out::Filled, true) => "filled",
             (Out::Filled, false) => "ok",
-            (Out::Err, _) => "err",
+            (Out::Err, _) | (Out::ErrAsset, _) => "err",
         };
+        if r.out == Out::ErrAsset && r.delay_ms.map(|d| d < case.timeout_ms).unwrap_or(false) {
+            out.cells.push("client_in_time:rejection_naming_unconfigured_asset");
+        }
         if s.class == "timeout" {
             out.by_timeout += 1;
         } else {
@@ -348,7 +357,10 @@ fn run(case: &Case) -> Result<Outcome, V> {
                     if r.delay_ms == Some(case.timeout_ms - 1) {
                         out.cells.push("delay_one_ms_below_timeout");
                     }
-                    if r.delay_ms == Some(case.timeout_ms + 1) {
+                    if case.timeout_ms == u64::MAX {
+                        out.cells.push("request_timeout_unbounded:answered_by_client");
+                    }
+                    if case.timeout_ms.checked_add(1).is_some() && r.delay_ms == Some(case.timeout_ms + 1) {
                         out.cells.push("delay_one_ms_above_timeout");
                     }
                     if s.class != class {
@@ -396,6 +408,21 @@ fn run(case: &Case) -> Result<Outcome, V> {
 }
 
 fn gen_case(rng: &mut Rng, multi_thread: bool, small: bool) -> Case {
+    if !multi_thread && rng.chance(1, 12) {
+        // a manager that never gives up on its client (request timeout = Duration::MAX): every request is
+        // answered by the client's own response, whenever it comes
+        let n = if small { rng.range_u(1, 6) } else { rng.range_u(1, 40) };
+        let reqs = (0..n)
+            .map(|_| Req {
+                open: rng.chance(3, 5),
+                instr: rng.usize_below(3),
+                send_ms: rng.range(0, 200) as u64,
+                delay_ms: Some(*rng.pick(&[0u64, 1, 50, 5_000, 86_400_000])),
+                out: *rng.pick(&[Out::Ok, Out::Ok, Out::Filled, Out::Err]),
+            })
+            .collect();
+        return Case { timeout_ms: u64::MAX, reqs, multi_thread: false, reissue: vec![] };
+    }
     let timeout_ms = if multi_thread { 60 } else { *rng.pick(&[50u64, 100, 1000, 5000]) };
     let n = if small { rng.range_u(1, 12) } else if multi_thread { rng.range_u(1, 60) } else if rng.chance(1, 4) { rng.range_u(100, 300) } else { rng.range_u(1, 60) };
     let burst = rng.chance(1, 2);
@@ -424,7 +451,8 @@ fn gen_case(rng: &mut Rng, multi_thread: bool, small: bool) -> Case {
         let out = match rng.below(20) {
             0..=8 => Out::Ok,
             9..=12 => Out::Filled,
-            13..=18 => Out::Err,
+            13..=17 => Out::Err,
+            18 => Out::ErrAsset,
             _ => Out::Alien,
         };
         let send_ms = if burst { rng.range(0, 3) as u64 } else { rng.range(0, timeout_ms as i64 * 3) as u64 };
@@ -532,6 +560,8 @@ fn main() {
             "delay_one_ms_below_timeout",
             "delay_one_ms_above_timeout",
             "delay_equals_timeout(not_judged)",
+            "request_timeout_unbounded:answered_by_client",
+            "client_in_time:rejection_naming_unconfigured_asset",
             "open_request",
             "cancel_request",
             "50_or_more_outstanding",
